@@ -72,6 +72,20 @@ type FStruct struct {
 	N   FInner
 }
 
+// FSeq: sequence fields of the remaining element kinds (bytes included: a form has one value per element).
+type FSeq struct {
+	By  []byte    `form:"by"`
+	U16 []uint16  `form:"u16"`
+	I8  [2]int8   `form:"i8"`
+	Fl  []float64 `form:"fl"`
+	Bo  []bool    `form:"bo"`
+	N   FSeqInner
+}
+
+type FSeqInner struct {
+	Raw []uint8 `form:"raw"`
+}
+
 // TStr is a hand-written thrift struct {1: string a, 2: i32 b, 3: binary c}.
 type TStr struct {
 	A string
@@ -403,6 +417,14 @@ func c11Roundtrip(c *EnumCtx) {
 			for _, arr := range [][3]int{{0, 0, 0}, {1, 2, 3}, {3, 3, 1}} {
 				v := FStruct{Sl: sl, SlI: sli, Arr: arr}
 				rtCase(c, fm, "sequences", &v)
+			}
+		}
+	}
+	for _, by := range [][]byte{nil, {0}, {12}, []byte("12"), {255, 0, 7}, []byte("a b&c=d")} {
+		for _, u := range [][]uint16{nil, {0}, {65535, 1}} {
+			for _, fl := range [][]float64{nil, {1.5}, {-0.25, 1e21}} {
+				v := FSeq{By: by, U16: u, I8: [2]int8{-128, 127}, Fl: fl, Bo: []bool{true, false}, N: FSeqInner{Raw: by}}
+				rtCase(c, fm, "sequences2", &v)
 			}
 		}
 	}
